@@ -161,7 +161,7 @@ func c31Replay(c c31Case) (*uix.Session, *eng.Fail) {
 func init() {
 	checks["C31"] = eng.Check{
 		Hist:        true,
-		Rule:        "explicit-state BFS to closure over (code order, cursor) on the 3-block, the loop-with-gap, the one-instruction and the 2-1-2 programs (thorough also: a 4-block program and a 5-block program in two segments) from 4 roots (initial, after an instruction move, after a block move, after both); menu in every state: down/up N and goto N for N in {0,1,2,3,Len-2,Len-1,Len,Len+1,2^31} and for decimal numbers written with leading zeros (010, 007, 08, 0012: the decimal value, or refused), entry, find P for 28 patterns P (single words, several words, POSIX regex syntax in the first, a later or every word, alternations, anchors, invalid regexes in the first or a later word, patterns matching nothing); model cursor computed independently (entry = header line of the entry instruction's block + 1 + its current index; find = first matching line after the cursor, cyclically, excluding the cursor line); a command that cannot be performed must show an error and leave the cursor unchanged. The long walk on one session interleaves the menu with moves and enters rejected and accepted patterns twice in a row. Non-trivial = command that moves the cursor.",
+		Rule:        "explicit-state BFS to closure over (code order, cursor) on the 3-block, the loop-with-gap, the one-instruction and the 2-1-2 programs (thorough also: a 4-block program and a 5-block program in two segments) from 4 roots (initial, after an instruction move, after a block move, after both); menu in every state: down/up N and goto N for N in {0,1,2,3,Len-2,Len-1,Len,Len+1,2^31} and for decimal numbers written with leading zeros (010, 007, 08, 0012: the decimal value, or refused), entry, find P for 28 patterns P (single words, several words, POSIX regex syntax in the first, a later or every word, alternations, anchors, invalid regexes in the first or a later word, patterns matching nothing); model cursor computed independently (entry = header line of the entry instruction's block + 1 + its current index; find = first matching line after the cursor, cyclically, excluding the cursor line); a command that cannot be performed must show an error and leave the cursor unchanged. Searches while marks are shown: after bounds of EVERY line and after moves, from EVERY cursor position, 7 patterns that match mark characters or any single character (a search reads the text of a line, not the mark column). The long walk on one session interleaves the menu with moves and enters rejected and accepted patterns twice in a row. Non-trivial = command that moves the cursor.",
 		Assumptions: []string{"the expected match set of a find pattern is computed with the standard library's POSIX regex engine (substring search for patterns without metacharacters)", "find lines with leading, trailing or doubled spaces are not judged"},
 		Run: func(r *eng.Run) {
 			for _, pn := range deepNames(r, []string{"three-blocks", "loop-with-gap", "one-instruction", "sym-blocks", "synthetic-long"}) {
@@ -236,6 +236,42 @@ func init() {
 							queue = append(queue, hh)
 							r.State(1)
 							r.Nontrivial(1)
+						}
+					}
+				}
+			}
+			// searches while marks are shown: after 'bounds' of every line (and after moves), from every
+			// cursor position, patterns that match mark characters or any single character — a search
+			// looks at the text of a line, not at the mark column
+			for _, pn := range deepNames(r, []string{"three-blocks", "loop-with-gap", "sym-blocks"}) {
+				p := progByName(pn)
+				s0, err := newSession(p)
+				if err != nil {
+					continue
+				}
+				n := s0.ListView().Lines.Len()
+				var setups [][]uiLine
+				for k := 0; k < n; k++ {
+					setups = append(setups, []uiLine{{Line: fmt.Sprintf("b %d", k)}})
+				}
+				setups = append(setups, []uiLine{{Line: "m 1 2"}}, []uiLine{{Line: "m 0 5"}}, []uiLine{{Line: "m 1 2"}, {Line: "b 2"}})
+				item := 0
+				for _, su := range setups {
+					for c := 0; c < n; c++ {
+						for _, pat := range []string{`f \^`, "f [<>!]", "f ^.$", "f vvv", "f ^...$", "f .", "f [^ ]"} {
+							item++
+							if !r.Mine(item) {
+								continue
+							}
+							h := append(append([]uiLine{}, su...), uiLine{Line: fmt.Sprintf("g %d", c)}, uiLine{Line: pat})
+							_, f := c31Replay(c31Case{Prog: pn, History: h})
+							r.Eval(1)
+							r.Trans(len(h))
+							r.Trace(1)
+							if f != nil {
+								r.Report(f)
+								r.Outcome(f.Sig)
+							}
 						}
 					}
 				}
